@@ -1,7 +1,7 @@
 """C19 — decided on generated stylesheets: byte-exact model correspondence + reference-semantics comparison."""
 from . import sheetprop as P
 
-FEATURES = "keyframes,fontface,stmt,media".split(',')
+FEATURES = "keyframes,fontface,viewport,stmt,media,var".split(',')
 RULE = 'see harness/props/sheetprop.py: generated stylesheets with features %s; model compared byte-for-byte, reference semantics compared on the flat items read back from the output CSS by an independent reader' % FEATURES
 ASSUMPTIONS = ['the LALR parser builds the node tree that harness/gens/sheet.py:tree() predicts (checked on every case through the byte-exact output comparison); independently of that prediction, the whole pipeline from the source TEXT (coq/Model/Lex.v + Parse.v + Eval.v: compile_text) is compared byte for byte with the real compiler on every case (abstentions counted in distribution.text_pipeline)',
                'harness/readcss.py reads the produced CSS back correctly']
@@ -16,7 +16,7 @@ def nontrivial(sh):
     if kind == 'media':
         return P.count_kind(sh, 'media') >= 1 and P.max_depth(sh) >= 2
     if kind == 'at':
-        return any(s[0] in ('keyframes', 'fontface', 'stmt') for s in sh)
+        return any(s[0] in ('keyframes', 'fontface', 'viewport', 'stmt') for s in sh)
     if kind == 'var':
         return P.count_kind(sh, 'var') >= 1
     return P.count_kind(sh, 'decl') >= 2
